@@ -19,13 +19,11 @@ LEVEL = {
     "C04": ("Theorems (complete on the model): every table the formatter indexes (regenerated from the Rust source each run) equals its arithmetic meaning; write_u32 = zero-padded decimal for every u32 and width; "
             "fraction = ⌊µs / 10^(6−p)⌋ (or ·10^(p−6)) through the soft-float for all µs and p ≤ 9; `format = Spec.render` field by field and END TO END from the picture text for every valid value of all six types and EVERY picture (error iff the picture does not compile or a token does not apply). "
             "Tie: all dates × 22 date tokens, all seconds × time tokens, all 10^6 µs × FF..FF9, random composite/long/inapplicable pictures; crate vs independent Lean renderer (`--spec`)."),
-    "C05": ("Theorems for every input text/state/clock: W/WW, duplicate codes, HH24-vs-meridian and inapplicable codes are errors; leftover input is an error; 12h+meridian arithmetic in both field orders; weekday-number parser; day-of-year accepted exactly for 1..365/366 and decoded correctly for all ordinals; "
-            "weekday cross-check; final conversions accept exactly real dates / clock ranges with the documented error kinds and µs carry (no normalisation); per-token reading lemmas for any digit run (unpadded, '+', blanks). "
-            "The single general 'denoted value' theorem over all readings is partial (see DESIGN §13.4). "
-            "Tie: year × day-of-year grid, 12h/24h notation for every hour, 40k generated lenient/perturbed spellings with a Python-computed expected value, malformed stream."),
-    "C06": ("Theorems: a rendered numeric field is read back as the same number for every u32 value and width; FULL round trip format→parse = id for EVERY valid value of every type through the six serde pictures (Props/C06Serde); kernel-checked round trips at range boundaries through permuted name-bearing pictures. "
-            "The induction over the whole class of lossless pictures is partial. "
-            "Tie: F.roundtrip (format, parse with the same Formatter, re-format) on all dates × 7 pictures, all seconds × 5 pictures, 40k generated lossless pictures (any field order, separators, name styles, extra weekday/day-of-year) for six types."),
+    "C05": ("Theorems (complete on the model): THE DENOTED VALUE — for every type, picture, clock and every reading of the picture in the lenient forms the property lists (Spec/Reading.lean: optional blanks, '+', unpadded numbers, names in any letter case, month names for a month number, AM/PM any case, 1–9 fraction digits rounded half-up with the carry propagated, trailing time fields left out; `Lex.fits`, `Delimited`), `parse` returns exactly `Spec.denote` and an error (never a panic or another value) when the reading denotes no value: component out of range, redundant fields that disagree, repeated / output-only / inapplicable code (Props/C05Reading.parse_reading). Plus: leftover input is an error for every input; the individual rejection rules. "
+            "Limits of the vocabulary (not of the proof): blanks are spaces, a fraction has ≥ 1 digit, numbers < 10^9. "
+            "Tie: the same executable `Spec.denote` is compared with the REAL crate on 12k (thorough 60k) generated readings + a systematic calendar/clock grid per run (tools/readings.py; found D11 and D12, both fixed); year × day-of-year grid, 12h/24h notation for every hour, 40k generated lenient/perturbed spellings, malformed stream."),
+    "C06": ("Theorems (complete on the model): for EVERY valid value of every type, EVERY picture in the decidable class `Spec.Lossless` (every component exactly once – four-digit year, month number or name and day or day-of-year, 24-hour or 12-hour-plus-meridian, minute, second, ≥ 6 fraction digits where the type has a fraction – any field order, separators, name styles, extra weekday / day-of-year tokens; variable-width fields delimited) and any clock: parse(format v) = v and re-formatting reproduces the text byte for byte (Props/C06Lossless.format_parse, format_parse_format, roundtrip_from_picture); the six serde pictures as a special case; digits round trip. "
+            "Tie: F.roundtrip (format, parse with the same Formatter, re-format) on all dates × 7 pictures, all seconds × 5 pictures, 40k generated lossless pictures for six types; the reading pass (crate vs Spec.denote)."),
     "C07": ("Theorems (complete except hashing): extract∘new = id and new∘extract = id for every day number and µs (also before 1970), date()/time() = extract, validity both ways, lexicographic order and injectivity; try_from_hms accepts exactly h<24,m<60,s<60,µs<10^6 with the first failing field reported, extract/from_hms mutually inverse, accessors = fields, second() = s + µs/10^6 correctly rounded. Hash: SipHash is not modelled; hash(a)=hash(b) ⇔ a=b is sampled on the crate. "
             "Tie: all dates × 5 critical times through new/extract/accessors, all 86,400 seconds × 3 µs and all 10^6 µs at 4 seconds, dense µs sweeps of second(), the hms grid."),
     "C08": ("Theorems for all valid receivers and ALL i32/i64 operands: each add/sub = exact integer result if in range else the range error, infallible differences in range, no i64 overflow in add_time/sub_time, x+i−i=x, (x+i)−x=i, a−b=−(b−a). "
